@@ -366,6 +366,33 @@ impl Contract<Empty, Empty> for Puppet {
     }
 }
 
+/// The same scripted behaviour behind `ContractWrapper::new_with_empty(..)` with the reply, sudo
+/// and migrate entry points added through the `_empty` builder steps (in that order), so that the
+/// wrapper's glue (message deserialisation, lifting of responses, carrying of entry points
+/// through the builder steps) is part of every tree exploration. Used for code 2.
+pub fn wrapped_puppet() -> Box<dyn Contract<Empty, Empty>> {
+    const P: Puppet = Puppet { tag: 2 };
+    fn exec(deps: DepsMut, env: Env, info: MessageInfo, msg: NodeMsg) -> AnyResult<Response> {
+        P.run(EntryKind::Execute, deps, env, Some(info), Some(msg.n), None)
+    }
+    fn inst(deps: DepsMut, env: Env, info: MessageInfo, msg: NodeMsg) -> AnyResult<Response> {
+        P.run(EntryKind::Instantiate, deps, env, Some(info), Some(msg.n), None)
+    }
+    fn query(deps: Deps, env: Env, _msg: Empty) -> AnyResult<Binary> {
+        Contract::query(&P, deps, env, vec![])
+    }
+    fn sudo(deps: DepsMut, env: Env, msg: NodeMsg) -> AnyResult<Response> {
+        P.run(EntryKind::Sudo, deps, env, None, Some(msg.n), None)
+    }
+    fn migrate(deps: DepsMut, env: Env, msg: NodeMsg) -> AnyResult<Response> {
+        P.run(EntryKind::Migrate, deps, env, None, Some(msg.n), None)
+    }
+    fn reply(deps: DepsMut, env: Env, msg: Reply) -> AnyResult<Response> {
+        Contract::reply(&P, deps, env, msg)
+    }
+    Box::new(cw_multi_test::ContractWrapper::new_with_empty(exec, inst, query).with_reply_empty(reply).with_sudo_empty(sudo).with_migrate_empty(migrate))
+}
+
 #[allow(dead_code)]
 pub fn addr(s: &str) -> Addr {
     Addr::unchecked(s)
